@@ -10,6 +10,7 @@ from typing import (
     Optional,
     Pattern,
     Sequence,
+    Set,
     Tuple,
     Union,
 )
@@ -672,6 +673,9 @@ class ObjectMethod(DeserializationMethod):
                 requiring = sorted(field.required_by & data.keys())
                 error = ValidationError([self.missing + f" (required by {requiring})"])
                 field_errors = set_child_error(field_errors, field.alias, error)
+        # aggregate fields whose deserialization failed: their errors are located at the
+        # properties they aggregate, not at the field
+        invalid_aggregates: Optional[Set[str]] = None
         if self.aggregate_fields:
             remain = data.keys() - self.all_aliases
             for flattened_field in self.flattened_fields:
@@ -687,6 +691,9 @@ class ObjectMethod(DeserializationMethod):
                     )
                 except ValidationError as err:
                     if not flattened_field.fall_back_on_default:
+                        if invalid_aggregates is None:
+                            invalid_aggregates = set()
+                        invalid_aggregates.add(flattened_field.name)
                         errors = extend_errors(errors, err.messages)
                         field_errors = update_children_errors(
                             field_errors, err.children
@@ -704,6 +711,9 @@ class ObjectMethod(DeserializationMethod):
                     )
                 except ValidationError as err:
                     if not pattern_field.fall_back_on_default:
+                        if invalid_aggregates is None:
+                            invalid_aggregates = set()
+                        invalid_aggregates.add(pattern_field.name)
                         errors = extend_errors(errors, err.messages)
                         field_errors = update_children_errors(
                             field_errors, err.children
@@ -716,6 +726,9 @@ class ObjectMethod(DeserializationMethod):
                     ] = self.additional_field.method.deserialize(additional)
                 except ValidationError as err:
                     if not self.additional_field.fall_back_on_default:
+                        if invalid_aggregates is None:
+                            invalid_aggregates = set()
+                        invalid_aggregates.add(self.additional_field.name)
                         errors = extend_errors(errors, err.messages)
                         field_errors = update_children_errors(
                             field_errors, err.children
@@ -747,6 +760,8 @@ class ObjectMethod(DeserializationMethod):
                 if field_errors
                 else set()
             )
+            if invalid_aggregates:
+                invalid_names = invalid_names | invalid_aggregates
             init = None
             if self.init_defaults:
                 init = {}
